@@ -170,16 +170,50 @@ def construct(facs, prog):
     return obs
 
 
+CHAIN = ['m', 'mo', 'mod', 'mode', 'model', 'models', 'modelsx']
+
+
+def renaming(job):
+    '''algorithm names are free text: every third program is built with names that are string prefixes of one
+    another (the dependent has the longer / the shorter name), and the observation is translated back'''
+    v = int(job['id']) % 3
+    letters = 'abcdefg'
+    if v == 0:
+        return {}
+    names = CHAIN if v == 1 else list(reversed(CHAIN))
+    return dict(zip(letters, names))
+
+
+def deep_map(x, m):
+    if not m:
+        return x
+    if isinstance(x, dict):
+        return {deep_map(k, m): deep_map(v, m) for k, v in x.items()}
+    if isinstance(x, (list, tuple)):
+        return [deep_map(v, m) for v in x]
+    if isinstance(x, str):
+        if x in m:
+            return m[x]
+        if '.' in x:
+            parts = x.split('.')
+            if parts[1] in m:
+                parts[1] = m[parts[1]]
+                return '.'.join(parts)
+    return x
+
+
 def run_job(job):
     # two Constructs per program: the factories in package order and in reverse package order
     # (another insertion order of _flat, another order of the child lists)
-    prog = job['prog']
+    fwd = renaming(job)
+    inv = {v: k for k, v in fwd.items()}
+    prog = deep_map(job['prog'], fwd)
     desc = prog_to_desc(prog)
     facs = engine.load(desc)
-    steps = [{'ev': 'construct', 'obs': construct(facs, prog)}]
+    steps = [{'ev': 'construct', 'obs': deep_map(construct(facs, prog), inv)}]
     rev = {k: list(reversed(v)) for k, v in facs.items()}
-    steps.append({'ev': 'construct-reversed', 'obs': construct(rev, prog)})
-    return {'tid': job['id'], 'prog': prog, 'steps': steps}
+    steps.append({'ev': 'construct-reversed', 'obs': deep_map(construct(rev, prog), inv)})
+    return {'tid': job['id'], 'prog': job['prog'], 'steps': steps}
 
 
 # --------------------------------------------------------------------------
